@@ -470,7 +470,7 @@ class MetadorGroup(MetadorNode):
             self._guard_path(dest)
             dst_path = dest
         elif isinstance(dest, MetadorGroup):
-            dst_path = dest.name + f"/{dst_name}"
+            dst_path = dest.name.rstrip("/") + f"/{dst_name}"
             if M.is_internal_path(dst_path):
                 msg = f"Trying to use a Metador-internal path: '{dst_path}'"
                 raise ValueError(msg)
